@@ -116,6 +116,7 @@ func Preset(prop string, adversarial bool, r *scen.Rand) *Params {
 		p.EditValueP = 0.1
 		p.Counts = []int{1, 2, 3}
 		p.RunP = 0.4
+		p.TasksP = 0.2 // registrations made by parallel tests count as well
 		p.CleanP = 1
 		p.SortP = 0.4
 		p.PreFilesP = 0.4
